@@ -133,7 +133,7 @@ ENGINE = 'that the tokio engine tasks (select! loops, mpsc channels) call these 
 PROPS = {
     'C02': dict(
         probes=[dict(name='cci_session_agreement', kind='agreement', target='fe2o3_amqp::session::consecutive_chunk_indices', args=['C02.cci-session'], claim='session::consecutive_chunk_indices (iterator adapters; enters unit SESSION as an assumed contract) agrees with its oracle: a new run starts exactly where the next id is not the previous + 1', bound='every ascending sequence of <= 6 ids over {0,1,2,3,5,6,2^32-2,2^32-1} (3003 sequences), real function through the verif-hooks facade'), dict(name='cci_receiver_agreement', kind='agreement', target='fe2o3_amqp::link::receiver_link::consecutive_chunk_indices', args=['C02.cci-receiver'], claim='receiver_link::consecutive_chunk_indices agrees with its oracle: a new run starts exactly where the id is not consecutive OR the per-delivery rcv-settle-mode changes', bound='every ascending sequence of <= 6 ids over 8 values x every assignment of {unset, first, second} (1.47 M cases), real function through the verif-hooks facade')],
-        units=['SESSION', 'SENDSPLIT', 'LINK', 'LINKATTACH', 'RESUME', 'DISPOSER', 'DELIVFUT', 'RECVAPI', 'WIRING', 'ACCLINK', 'LINKAPI', 'ACCDELEG', 'TXNDELEG', 'SENDINNER', 'WIRELAYOUT', 'RESUMESPLIT', 'ENUMCODES', 'SETTERS', 'VISITENUM', 'LINKRESUME', 'RESUMECORE', 'ATTACHBUILD', 'UNSETTLED', 'LINKBUILDER', 'DELIVERY', 'LINKDETACH'], kani=[], level='proof', title='Settlement',
+        units=['SESSION', 'SENDSPLIT', 'LINK', 'LINKATTACH', 'RESUME', 'DISPOSER', 'DELIVFUT', 'RECVAPI', 'WIRING', 'ACCLINK', 'LINKAPI', 'ACCDELEG', 'TXNDELEG', 'SENDINNER', 'WIRELAYOUT', 'RESUMESPLIT', 'ENUMCODES', 'SETTERS', 'VISITENUM', 'LINKRESUME', 'RESUMECORE', 'ATTACHBUILD', 'UNSETTLED', 'LINKBUILDER', 'DELIVERY', 'LINKDETACH', 'REASM'], kani=[], level='proof', title='Settlement',
         assumptions=[ASYNC, ENGINE,
             'session::consecutive_chunk_indices and util::is_consecutive are under contract in unit SESSION (rule R34: the windows(2).enumerate().filter_map(..).collect() chain is written as the loop the std adapters perform, closure body verbatim); the agreement probe cci_session_agreement still runs the real function against an independent oracle (bounded)',
             'ReceiverLink::dispose_all (batch disposal: sort, drop what is no longer unsettled, one disposition per maximal run) and receiver_link::consecutive_chunk_indices are under contract in unit LINK (rule R34; `sort_by_key` / `retain` are stand-ins taking the closures as the code has them); the agreement probe cci_receiver_agreement still runs the real run splitter against an independent oracle (bounded)',
